@@ -17,6 +17,8 @@ SPEC = {
         {"name": "nflog", "pkg": "./nflog", "timeout_quick": 90, "search_cases": 30000},
         # repeats must survive a rejected reload: the running dispatcher stays in place (C17's engine: the real reload closure)
         {"name": "reload", "pkg": "./reload", "search_cases": 4, "timeout_quick": 400, "timeout_thorough": 900, "timeout_search": 400, "only": ["failed_reload_keeps_running", "failed_reload_keeps_config"]},
+        # an orphaned live group (maintenance racing the re-creation of a group) keeps notifying on its own: C06's scheduled engine
+        {"name": "groupsched", "pkg": "./groupsched", "search_cases": 3000, "quick_cases": 600, "only": ["no_orphan_live_group"]},
     ],
     "rule": "random histories of one alert group (4 alerts appearing/firing/resolving/vanishing, some muted per flush) flushed through the REAL "
             "PipelineBuilder.New stage chain with 1-2 integrations (send_resolved on/off, per-flush accept/reject, delivery delay, tick lagging "
